@@ -5,7 +5,8 @@ set -u
 id="$1"; shift
 dir=/verif/seeded/$id
 cd /repo && git status --short | grep -q . && { echo "/repo not clean"; exit 2; }
-git -C /repo apply "$dir/patch.diff" 2>/dev/null || git -C /repo apply -3 "$dir/patch.diff" || { echo "patch does not apply"; git -C /repo checkout -- .; exit 2; }
+git -C /repo apply --check "$dir/patch.diff" 2>/dev/null || { echo "patch does not apply to /repo HEAD $(git -C /repo rev-parse --short HEAD) (the crate has moved on: the seed was made against an earlier commit)"; exit 2; }
+git -C /repo apply "$dir/patch.diff"
 : > "$dir/checks.log"
 echo "# /repo at $(git -C /repo rev-parse --short HEAD) + patch.diff; /verif at $(git -C /verif rev-parse --short HEAD)" >> "$dir/checks.log"
 for p in "$@"; do
